@@ -469,7 +469,8 @@ def re_escape(s):
 
 BAD_KINDS = ['fail', 'error', 'setup_error', 'teardown_error',
              'cleanup_error', 'body_teardown_error', 'body_cleanup_error',
-             'fail_teardown_error', 'subtests', 'uxsuccess', 'setup_fail']
+             'fail_teardown_error', 'subtests', 'uxsuccess', 'setup_fail',
+             'cleanup_builtin_error']
 GOOD_KINDS = ['pass', 'pass', 'pass', 'skip_deco', 'skip_setup', 'skip_body',
               'xfail']
 
